@@ -6,7 +6,7 @@ import os
 import sys
 
 REPO = os.environ.get('VERIF_REPO', '/repo')
-OUT = os.path.join(os.path.dirname(os.path.dirname(os.path.abspath(__file__))), 'coq', 'gen')
+OUT = os.environ.get('VERIF_GEN_OUT') or (os.path.join(os.path.dirname(os.path.dirname(os.path.abspath(__file__))), 'coq', 'gen'))
 
 
 class GenError(Exception):
